@@ -5,6 +5,7 @@
 import Mrm.Proofs.Story
 
 set_option linter.unusedSimpArgs false
+set_option linter.unusedSectionVars false
 
 namespace Mrm
 
@@ -36,20 +37,19 @@ def itemFn (k : Kind) (base : Xml) (items : List Xml) : Out :=
   | _ => ⟨items, [], none⟩
 
 /-- conditions of a move, read from `resolves` -/
-theorem move_conds {t : Key} {ss ids : List Key} (hsm : ∀ x ∈ ids, x.isSome = true)
+theorem move_conds {t : Key} {ss ids : List Key} (hsm : ∀ s ∈ ss, s.isSome = true)
     (htgt : (match endIfBlank t with | none => true | some t' => t'.isSome && ids.contains t') = true)
-    (hall : ∀ s ∈ ss, s ∈ ids)
     (hts : (match endIfBlank t with | none => true | some t' => !ss.contains t') = true) :
-    (t = none ∨ t ∈ ids) ∧ t ∉ ss := by
+    (t.isSome = true → t ∈ ids) ∧ t ∉ ss := by
   cases t with
   | none =>
-    refine ⟨Or.inl rfl, ?_⟩
+    refine ⟨fun h => (by cases h), ?_⟩
     intro hc
-    have := hsm none (hall none hc)
+    have := hsm none hc
     cases this
   | some k =>
     simp only [endIfBlank] at htgt hts
-    exact ⟨Or.inr (mem_of_ok (by simpa using htgt)), by simpa using hts⟩
+    exact ⟨fun _ => mem_of_ok (by simpa using htgt), by simpa using hts⟩
 
 section
 variable (base : Xml) (items : List Xml) (g : Good "item" items)
@@ -73,12 +73,13 @@ theorem item_insert
       (specIds .ItemInsert "item" (namedOf .ItemInsert base) (keysOf "item" items)) := by
   simp only [resolves, namedOf, Kind.group] at hres
   simp only [itemFn, specIds, namedOf, Kind.group, Kind.dedups, elemId_eq, Bool.false_eq_true, if_false]
-  apply insertBefore_eff g _ _ (findall_tagged base "item")
+  apply insertBefore_eff _ _ (findall_tagged base "item")
   cases ht : Xml.childText (some base) "itemID" with
-  | none => exact Or.inl rfl
+  | none => intro h; cases h
   | some t =>
     rw [ht] at hres
-    exact Or.inr (mem_of_ok (by simpa [endIfBlank] using hres))
+    intro _
+    exact mem_of_ok (by simpa [endIfBlank] using hres)
 
 theorem item_eainsert
     (hres : resolves .EAItemInsert (namedOf .EAItemInsert base) (keysOf "item" items) = true) :
@@ -87,12 +88,13 @@ theorem item_eainsert
   simp only [resolves, namedOf, Kind.group] at hres
   simp only [itemFn, specIds, namedOf, Kind.group, Kind.dedups, elemId_eq, Bool.false_eq_true, if_false,
     srcElems_eq]
-  apply insertBefore_eff g _ _ (elemsOf_tagged _ "item")
+  apply insertBefore_eff _ _ (elemsOf_tagged _ "item")
   cases ht : Xml.childText (base.find "element_target") "itemID" with
-  | none => exact Or.inl rfl
+  | none => intro h; cases h
   | some t =>
     rw [ht] at hres
-    exact Or.inr (mem_of_ok (by simpa [endIfBlank] using hres))
+    intro _
+    exact mem_of_ok (by simpa [endIfBlank] using hres)
 
 theorem item_replace
     (hres : resolves .ItemReplace (namedOf .ItemReplace base) (keysOf "item" items) = true) :
@@ -100,9 +102,10 @@ theorem item_replace
       (specIds .ItemReplace "item" (namedOf .ItemReplace base) (keysOf "item" items)) := by
   simp only [resolves, namedOf, Kind.group, Bool.and_eq_true] at hres
   obtain ⟨ht, _⟩ := hres
+  have hts := ht.1
   have ht := mem_of_ok ht
   simp only [itemFn, specIds, namedOf, Kind.group, elemId_eq]
-  rw [g.findRequired_mem none ht]
+  rw [findRequired_mem none ht hts]
   exact replaceAt_eff _ _ (findall_tagged base "item") ht
 
 theorem item_eareplace
@@ -111,9 +114,10 @@ theorem item_eareplace
       (specIds .EAItemReplace "item" (namedOf .EAItemReplace base) (keysOf "item" items)) := by
   simp only [resolves, namedOf, Kind.group, Bool.and_eq_true] at hres
   obtain ⟨ht, _⟩ := hres
+  have hts := ht.1
   have ht := mem_of_ok ht
   simp only [itemFn, specIds, namedOf, Kind.group, elemId_eq, srcElems_eq]
-  rw [g.findRequired_mem none ht]
+  rw [findRequired_mem none ht hts]
   exact replaceAt_eff _ _ (elemsOf_tagged _ "item") ht
 
 theorem item_swap
@@ -127,7 +131,8 @@ theorem item_swap
   match ss, hlen, hall with
   | [a, b], _, hall =>
     have := all_mem_of_ok hall
-    exact swapTwo_eff g a b (this a (by simp)) (this b (by simp))
+    have hsm := all_some_of_ok hall
+    exact swapTwo_eff g a b (this a (by simp)) (this b (by simp)) (hsm a (by simp)) (hsm b (by simp))
 
 theorem item_eamove
     (hres : resolves .EAItemMove (namedOf .EAItemMove base) (keysOf "item" items) = true) :
@@ -136,10 +141,11 @@ theorem item_eamove
   simp only [resolves, namedOf, Kind.group, Bool.and_eq_true] at hres
   obtain ⟨⟨⟨⟨htgt, hall⟩, hnd⟩, hts⟩, _⟩ := hres
   simp only [itemFn, specIds, namedOf, Kind.group, elemId_eq, srcTexts_eq]
+  have hsm := all_some_of_ok hall
   have hall := all_mem_of_ok hall
   have hnd : (textsOf (base.find "element_source") "itemID").Nodup := of_decide_eq_true hnd
-  obtain ⟨c1, c2⟩ := move_conds g.sm htgt hall hts
-  exact moveMany_eff g _ _ c1 hall hnd c2
+  obtain ⟨c1, c2⟩ := move_conds hsm htgt hts
+  exact moveMany_eff g _ _ c1 hall hsm hnd c2
 
 theorem item_movemultiple (hsh : (base.findall "itemID").isEmpty = false)
     (hres : resolves .ItemMoveMultiple (namedOf .ItemMoveMultiple base) (keysOf "item" items) = true) :
@@ -158,9 +164,10 @@ theorem item_movemultiple (hsh : (base.findall "itemID").isEmpty = false)
   | some t =>
     rw [hl] at htgt hts
     simp only at htgt hts ⊢
+    have hsm := all_some_of_ok hall
     have hall := all_mem_of_ok hall
-    obtain ⟨c1, c2⟩ := move_conds g.sm htgt hall hts
-    exact moveMany_eff g _ _ c1 hall hnd c2
+    obtain ⟨c1, c2⟩ := move_conds hsm htgt hts
+    exact moveMany_eff g _ _ c1 hall hsm hnd c2
 
 end
 
